@@ -51,6 +51,9 @@ Lemma package_vars_agree :
   ConcGen.codec_pkg_var_writers = [] /\ ConcGen.reflect_pkg_var_writers = [] /\ ConcGen.schema_pkg_var_writers = [].
 Proof. repeat split; vm_compute; reflexivity. Qed.
 
+Lemma schema_writers_agree : ConcGen.schema_writers = expected_schema_writers.
+Proof. vm_compute. reflexivity. Qed.
+
 (* ---- the unguarded discipline violates the property ------------------------ *)
 Local Open Scope N_scope.
 
